@@ -120,7 +120,7 @@ impl<'a> JuiceStream<'a> {
             verif_events.push(format!(
                 r#"["{:?}",{},{}]"#,
                 e.kind,
-                e.time,
+                e.time as i32,
                 bufs.nested_objects.len() - verif_before
             ));
 
